@@ -355,6 +355,35 @@ def run(ctx: Ctx) -> int:
                           f"exact value {[int(v) for v in exact]}",
                           {"op": "sum-of-prods", "terms": [[list(c) for c in fac] for fac in terms], "impl": [list(got[0]), got[1]]})
             break
+    # products along EVERY axis of arrays of rank 3 and 4 (not only the second-to-last one, the one evaluate() uses): the result at each
+    # position is the product of the factors along that axis, value and shape
+    for shape, axis in [((3, 3), 0), ((3, 5), 0), ((5, 3), 1), ((2, 3, 4), 0), ((2, 3, 4), 1), ((2, 3, 4), 2), ((4, 2), 0), ((1, 6), 0), ((6, 1), 1)]:
+        facs = [(2, 0, 0, 0), (1, 0, 1, 0), (0, 1, 0, 0), (1, 0, -1, 0), (0, 0, 1, 0), (2, 0, 2, 0)]
+        arr_np = np.array([facs[int(rng.integers(0, len(facs)))] for _ in range(int(np.prod(shape)))], dtype=np.int64).reshape(shape + (4,))
+        try:
+            pr = ExactScalarArray(jnp.array(arr_np, dtype=jnp.int32)).prod(axis=axis)
+            pc_, pp_ = np.asarray(pr.coeffs), np.asarray(pr.power)
+        except Exception as e:
+            ctx.violation("prod-axis-raises", f"prod(axis={axis}) of an array of shape {shape + (4,)} raised {e!r}", {"op": "prod-axis", "array": arr_np.tolist(), "axis": axis})
+            continue
+        ctx.count(("prod-axis", shape, axis), nontrivial=True, bucket="prod-along-any-axis")
+        out_shape = tuple(d for i, d in enumerate(shape) if i != axis)
+        ok = pc_.shape == out_shape + (4,) and pp_.shape == out_shape
+        if ok:
+            moved = np.moveaxis(arr_np, axis, -2).reshape((-1, shape[axis], 4))
+            for pos in range(moved.shape[0]):
+                exact = (1, 0, 0, 0)
+                for c in moved[pos]:
+                    exact = mul_ref(exact, tuple(int(v) for v in c))
+                got = (tuple(int(v) for v in pc_.reshape(-1, 4)[pos]), int(pp_.reshape(-1)[pos]))
+                if not _same_value(got, (exact, 0)):
+                    ok = False
+                    break
+        if not ok:
+            ctx.violation("prod-axis", f"prod(axis={axis}) of an array of shape {shape + (4,)}: result coeffs {pc_.shape} / power {pp_.shape} "
+                          f"(expected {out_shape + (4,)} / {out_shape}) or a value differs from the product of the factors along that axis",
+                          {"op": "prod-axis", "array": arr_np.tolist(), "axis": axis})
+            break
     ctx.sample({"op": "prod", "n_factors": len(prod_cases[5]), "first": prod_cases[5][:3], "impl": prod_impl[5]})
     # a silent wrap outside the guard is the unguarded clause of the property failing
     for l, got, exact in wrapped_inputs:
@@ -489,6 +518,25 @@ def replay(ctx: Ctx, obj) -> int:
             tot = tot + H10.ref_value(d, {"a": 0})[0]
         print("impl now:", got, "exact:", tot.to_complex())
         return 0 if abs(got - tot.to_complex()) <= 3e-6 * max(tot.norm1(), 1e-30) else 1
+    if r.get("op") == "prod-axis":
+        arr_np = np.array(r["array"], dtype=np.int64)
+        axis = int(r["axis"])
+        pr = ExactScalarArray(jnp.array(arr_np, dtype=jnp.int32)).prod(axis=axis)
+        pc_, pp_ = np.asarray(pr.coeffs), np.asarray(pr.power)
+        shape = arr_np.shape[:-1]
+        out_shape = tuple(d for i, d in enumerate(shape) if i != axis)
+        if pc_.shape != out_shape + (4,) or pp_.shape != out_shape:
+            print("shapes now:", pc_.shape, pp_.shape)
+            return 1
+        moved = np.moveaxis(arr_np, axis, -2).reshape((-1, shape[axis], 4))
+        for pos in range(moved.shape[0]):
+            exact = (1, 0, 0, 0)
+            for c in moved[pos]:
+                exact = mul_ref(exact, tuple(int(v) for v in c))
+            if not _same_value((tuple(int(v) for v in pc_.reshape(-1, 4)[pos]), int(pp_.reshape(-1)[pos])), (exact, 0)):
+                print("value differs at position", pos)
+                return 1
+        return 0
     if r.get("op") == "sum-of-prods":
         terms = [[tuple(c) for c in fac] for fac in r["terms"]]
         tot = ExactScalarArray(jnp.array(terms, dtype=jnp.int32)).prod(axis=1).sum()
